@@ -1486,4 +1486,58 @@ theorem tri_vertices_valid {sc : Scale ℝ} {n : ℕ} {high : Option ℝ} {low r
 
 example : (0:ℝ) < 8000 ∧ 0 < 64 ∧ (0:ℝ) ≤ 20 ∧ (20:ℝ) < 300 ∧ (300:ℝ) < 700 ∧ (700:ℝ) ≤ 8000 / 2 := by norm_num
 
+/-! ## 9. non-vacuity: concrete instances of the hypotheses -/
+
+/-- mel scale, 20 Hz … 4 kHz -/
+example : ScaleOK .mel 20 4000 := scaleOK .mel 20 4000 (by show (-700:ℝ) < 20; norm_num) (by norm_num)
+/-- Bark scale from 0 Hz -/
+example : ScaleOK .bark 0 8000 := scaleOK .bark 0 8000 (by show (-1960:ℝ) < 0; norm_num) (by norm_num)
+/-- octave scale needs a positive `low_hz` -/
+example : Scale.Valid (.octave 27.5) 27.5 := by show (0:ℝ) < 27.5; norm_num
+example : Scale.Valid (.linear 0 0.5) 0 := by show (0:ℝ) < 0.5; norm_num
+
+/-- the default triangular bank at 8 kHz is accepted, its range is (20, 4000) -/
+example : tri_ctor_rejects (20:ℝ) none 8000 = false ∧ (20:ℝ) < tri_high none 8000 ∧ (20:ℝ) < 8000 / 2 := by
+  refine ⟨?_, ?_, by norm_num⟩
+  · rw [tri_rejects_iff]; simp only [Option.getD]; norm_num
+  · rw [tri_high_eq]; simp only [Option.getD]; norm_num
+
+/-- a constructed triangular bank exists (hypothesis `hok` of the layout theorems) -/
+example : ∃ vs, triVertices (.mel : Scale ℝ) 5 none 20 8000 = .ok vs := by
+  have : tri_ctor_rejects (20:ℝ) none 8000 = false := by
+    rw [tri_rejects_iff]; simp only [Option.getD]; norm_num
+  simp [triVertices, this]
+
+/-- the floor-style constructors accept (20, default) at 11025 Hz, where the default top is 5512 -/
+example : fbank_ctor_rejects (20:ℝ) none 11025 = false ∧ fbank_high none (11025:ℝ) = 5512 := by
+  refine ⟨by rw [fbank_rejects_iff]; simp, ?_⟩
+  rw [(floor_high_eq none 11025).1]; simp only [Option.getD]
+  have : ⌊(11025:ℝ) / 2⌋ = 5512 := by rw [Int.floor_eq_iff]; norm_num
+  rw [this]; norm_num
+
+example : ∃ es, gaborEdges (.bark : Scale ℝ) 10 (some 3800) 50 8000 = .ok es := by
+  have : gabor_ctor_rejects (50:ℝ) (some 3800) 8000 = false := by
+    rw [gabor_rejects_iff]
+    refine ⟨by norm_num, fun h hh _ => ?_⟩
+    have : h = 3800 := by simpa using hh.symm
+    subst this
+    have : ⌊(8000:ℝ) / 2⌋ = 4000 := by rw [Int.floor_eq_iff]; norm_num
+    rw [this]; norm_num
+  simp [gaborEdges, this]
+
+/-- `gammatone_erb_partial`'s hypothesis holds for order 1 (`∫ 1/(1+v²) = π`), so for order 1 the ERB clause
+is proved outright -/
+theorem gammatone_erb_order1 (mc : Bool) (rate l r : ℝ) (hrate : 0 < rate) (hlr : l < r) :
+    let f := gammaFilt false true mc 1 rate l r
+    (∫ ω : ℝ, nsq (gammatone_H 1 f.alpha f.c f.xi f.offset ω)) /
+      nsq (gammatone_H 1 f.alpha f.c f.xi f.offset f.xi) = hertz_to_angular (r - l) rate := by
+  apply gammatone_erb_partial mc 1 le_rfl rate l r hrate hlr
+  simp
+
+/-- bin-theorem hypotheses: vertices 20 < 300 < 700 Hz at 8 kHz, width 64 -/
+example : ∃ res, triResponse (triParts (8000:ℝ) 20 300 700 64 true false) 64 true = .ok res ∧ res.length = 33 := by
+  obtain ⟨res, h1, h2, -⟩ := tri_is_triangle 8000 20 300 700 64 true false (by norm_num) (by norm_num) (by norm_num)
+    (by norm_num) (by norm_num) (by norm_num)
+  exact ⟨res, h1, by rw [h2]; decide⟩
+
 end PdsVerif.C05
